@@ -87,6 +87,7 @@ func vspecAckType(s message.Type) bool {
 
 // 64-bit bit trick; its contract is assumed (QF_BV lemma in /verif/lemmas, hand-transcribed body)
 //@ func roundUpPowerOfTwo64
+//@   flag bodyhash 6d1b608ad621
 //@   trusted
 //@   pure
 //@   requires 1 <= n && n <= 4611686018427387904
@@ -289,6 +290,7 @@ func vspecAckType(s message.Type) bool {
 //@   ensures[ghostdef-del] gfield(m, "ndel") == old(gfield(m, "ndel"))+1
 //@   modifies gfield(id, "sess"), gfield(m, "ndel")
 //@ func (*Manager).New
+//@   flag bodyhash bad376d96f45
 //@   trusted
 //@   results sess, err
 //@   ensures err == nil ==> sess != nil && fresh(sess) && sess.Cmsg == nil && sess.Will == nil && !sess.initted && !held(addr(sess.mu)) && (len(id) > 0 ==> gfield(id, "sess") == sess)
